@@ -83,6 +83,12 @@ static bool exists_ref(const Comp& S, const Comp& B, bool wantNoAuth, Str* witne
 
 template <class X> void run(Ctx& c, const Str& Ss, const Str& Bs, const char* gen) {
     UriBox<X> S, B;
+    // "window": source and base are two ranges of ONE buffer that start at the same address (corresponding components then start at the
+    // same address too and differ only in where they end)
+    typename X::S shared; bool window = strcmp(gen, "window") == 0;
+    if (window) { const Str& longer = Ss.size() >= Bs.size() ? Ss : Bs; shared = widen<X>(longer);
+        if (S.parse_view(shared.data(), Ss.size(), Ss) != URI_SUCCESS || B.parse_view(shared.data(), Bs.size(), Bs) != URI_SUCCESS) { c.count("skipped_invalid"); return; } }
+    else
     if (S.parse(Ss) != URI_SUCCESS || B.parse(Bs) != URI_SUCCESS) { c.count("skipped_invalid"); return; }
     if (!S.faithful() || !B.faithful()) { c.count("skipped_unfaithful_parse"); return; }
     Comp ms = split(Ss), mb = split(Bs);
@@ -90,11 +96,14 @@ template <class X> void run(Ctx& c, const Str& Ss, const Str& Bs, const char* ge
     Ledger led;
     for (int variant = 0; variant < 3; variant++) {
         bool root = variant == 1 || (variant == 2 && c.rng.coin());
+        // the mode is a UriBool: now and then a non-zero value other than URI_TRUE. How the library reads it is its business (the unchanged
+        // one takes only URI_TRUE for "domain root"); the reference must resolve back to the source whichever way it reads it
+        int modeArg = root ? URI_TRUE : URI_FALSE; bool oddMode = variant >= 1 && c.rng.chance(1, 12); if (oddMode) { static const int T[] = {2, -1, 0x100}; modeArg = T[c.rng.below(3)]; root = false; c.count("non_canonical_mode_values"); }
         Str snapS = deep_snapshot<X>(S.u), snapB = deep_snapshot<X>(B.u);
         UriBox<X> D; memset(&D.u, 0xEE, sizeof D.u); int rc;
         c.stage((uint64_t)variant + 1);
         const typename X::Uri* src = (Ss == Bs && variant == 0) ? &B.u : &S.u;      // source and base the very same object
-        { LibScope ls; if (variant < 2) rc = X::RemoveBaseUri(&D.u, src, &B.u, root ? URI_TRUE : URI_FALSE); else { D.led = &led; rc = X::RemoveBaseUriMm(&D.u, &S.u, &B.u, root ? URI_TRUE : URI_FALSE, led.mgr()); } }
+        { LibScope ls; if (variant < 2) rc = X::RemoveBaseUri(&D.u, src, &B.u, modeArg); else { D.led = &led; rc = X::RemoveBaseUriMm(&D.u, &S.u, &B.u, modeArg, led.mgr()); } }
         c.evaluations++;
         Str what = fmt("source=\"%s\" base=\"%s\" %s", esc(Ss).c_str(), esc(Bs).c_str(), root ? "domain-root" : "relative");
         if (deep_snapshot<X>(S.u) != snapS || deep_snapshot<X>(B.u) != snapB) c.violation("C12", fmt("shorten/%s/const-argument-modified", X::tag()), what);
@@ -128,7 +137,8 @@ template <class X> void run(Ctx& c, const Str& Ss, const Str& Bs, const char* ge
         } else c.count("round_trip_ok");
         // (b) shape of the reference
         size_t e; bool rvalid = dfa_uriref(rt, &e); Comp mrf; if (rvalid) mrf = split(rt);
-        if (schemesDiffer) {
+        if (oddMode) { /* which mode this was is the library's reading: only the round trip is judged */ }
+        else if (schemesDiffer) {
             if (rt != recompose(ms)) c.violation("C10", fmt("shorten/%s/schemes-differ-not-source", X::tag()), what);
         } else if (rvalid) {
             Str w;
@@ -188,6 +198,13 @@ static void run_case(Ctx& c, uint64_t idx) {
             S = "s://" + u + "@" + h + ":" + pt + "/" + d + TL[r.below(6)] + "?" + q; B = "s://" + u2 + "@" + h2 + ":" + pt2 + "/" + d2 + TL[r.below(6)] + "?" + q2;
             if (r.coin()) std::swap(S, B);
             gen = "length-mod-256";
+        }
+        if (r.chance(1, 20)) {      // window parses: one text, two end points
+            static const char* const WT[] = {"s://user@host:8080/dir/file.ext?query#frag", "s://h/a/b/cde", "s://1.2.3.44:80/x", "s://[::1]:8/pq", "s:/a/bb/ccc", "s:a/b/cd?q", "s://host/a/b/c/"};
+            Str t = r.coin() ? Str(WT[r.below(7)]) : gen_abs_base(r); size_t e; if (!dfa_uriref(t, &e) || !split(t).hasScheme) t = WT[0];
+            Str pre = t; for (int tries = 0; tries < 30; tries++) { size_t m = 3 + r.below((uint32_t)(t.size() > 3 ? t.size() - 2 : 1)); if (m > t.size()) m = t.size(); Str q = t.substr(0, m); if (dfa_uriref(q, &e) && split(q).hasScheme) { pre = q; break; } }
+            if (r.coin()) { S = t; B = pre; } else { S = pre; B = t; }
+            gen = "window";
         }
         if (r.chance(1, 50)) S = gen_uri(r);       // may be relative: error-code clause
     }
